@@ -438,6 +438,11 @@ fn binary_case(cx: &mut CaseCtx, input: Input, cfg: &GenCfg) -> CaseResult {
         cx.label_if(at + 1 < names.len(), "binary-module-less-file-not-last");
     }
     let n = names.len();
+    // now and then the second file lives in a sub-directory under the first one's name: one path ends in the other
+    if n >= 2 && pick(&mut u, 4) == 3 {
+        names[1] = format!("nested/{}", names[0]);
+        cx.label("binary-one-path-ends-in-another");
+    }
     cx.nontrivial = n >= 2;
     let json_mode = pick(&mut u, 2) == 1;
     let run = |cx: &CaseCtx, salt: u64, order: &[usize], refs: u32| -> Result<(proc::RunResult, Option<Vec<u8>>), Fail> {
@@ -505,7 +510,23 @@ fn binary_case(cx: &mut CaseCtx, input: Input, cfg: &GenCfg) -> CaseResult {
                     .map(|j| format!("{} {}", j["error_code"], j["message"]))
                     .collect()
             } else {
-                r.stderr_text().lines().filter(|l| l.starts_with("warning [")).map(|l| l.to_owned()).collect()
+                // whole blocks: header, location, quoted source lines, notes
+                let mut blocks: Vec<String> = Vec::new();
+                let mut keep = false;
+                for l in r.stderr_text().lines() {
+                    if l.starts_with("warning [") || l.starts_with("error [") {
+                        keep = l.starts_with("warning [");
+                        if keep {
+                            blocks.push(String::new());
+                        }
+                    }
+                    if keep {
+                        let b = blocks.last_mut().unwrap();
+                        b.push_str(l.trim_end());
+                        b.push('\n');
+                    }
+                }
+                blocks.into_iter().map(|b| b.trim_end().to_owned()).collect()
             };
             v.sort();
             v
